@@ -47,6 +47,12 @@ def run(ctx):
         ma, mb = H.content(rnd, 70, 0), H.content(rnd, 5, 0)
         for m in (ma, mb, ma, b'', mb): r.call(m)
         traces.append(r.trace(dict(kind='reuse'))); ctx.mark((name, 'reuse'))
+        # long messages (page-sized: exact multiples of 4096 bytes, one more, one bit less)
+        if big or name in ('md5', 'sha1', 'sha256'):
+            r = H.Rec(name)
+            for n, L in ((4096, None), (8192, None), (4097, None), (4096, 8 * 4096 - 1)) if (big or name == 'md5') else ((4096, None), (4097, None)):
+                r.call(H.content(rnd, n, 0), L) if L else r.call(H.content(rnd, n, 0))
+            traces.append(r.trace(dict(kind='long'))); ctx.mark((name, 'long'))
         # bit length beyond the data: must raise
         r = H.Rec(name)
         for n, over in ((0, 1), (1, 1), (5, 7), (Bb // 8, 1), (Bb // 8 + 3, 8 * Bb), (2, 1 << 20)):
